@@ -18,6 +18,13 @@ RECURSIVE TStart(_, _, _)
 TStart(bpms, off, k) ==
     IF k = 1 THEN off ELSE TStart(bpms, off, k-1) + Mul4800(bpms[k].p - bpms[k-1].p, bpms[k-1].bl)
 
+(* the same times as one sequence, computed in one pass (TLC does not memoise TStart) *)
+RECURSIVE StartsAcc(_, _, _)
+StartsAcc(bpms, acc, k) ==
+    IF k > Len(bpms) THEN acc
+    ELSE StartsAcc(bpms, Append(acc, acc[k-1] + Mul4800(bpms[k].p - bpms[k-1].p, bpms[k-1].bl)), k + 1)
+Starts(bpms, off) == StartsAcc(bpms, <<off>>, 2)
+
 (* absolute beat W + num/den  ->  ticks *)
 SegOf(bpms, W, num, den) ==
     LET S == { k \in DOMAIN bpms : bpms[k].p * den <= (W * den + num) * 4800 }
